@@ -123,23 +123,43 @@ def run(tier, seed):
                 smeta.append((g['input'], fn, ln, lit))
         txt = [HEAD2 % y, 'Definition srows : list (string * string * string) := %s.' % gen_forms.clist(srows),
                'Goal True. idtac "@@SHAPES". Abort.',
-               'Eval vm_compute in map (fun r => match line_of cat (fst (fst r)) (snd (fst r)) with Some ln => gate_shape (snd r) (l_body ln) | None => 0%nat end) srows.']
+               'Eval vm_compute in map (fun r => match line_of cat (fst (fst r)) (snd (fst r)) with Some ln => gate_shape (snd r) (l_body ln) | None => 0%nat end) srows.',
+               'Goal True. idtac "@@CHAINS". Abort.',
+               'Eval vm_compute in map (fun r => match line_of cat (fst (fst r)) (snd (fst r)) with Some ln => gate_shape_chain (snd r) (l_body ln) | None => 0%nat end) srows.']
         sfiles.append((y, smeta, ck.write_gen('C09_shapes_%d.v' % y, '\n'.join(txt) + '\n')))
     res_s = ck.coqc_many([f for _, _, f in sfiles], timeout=600)
     tfiles = []
+    cfiles = []
     for y, smeta, f in sfiles:
         ok, out = res_s[f]
         if not ok:
             ck.oblige('gate-shapes:%d' % y, False, out[-300:])
             continue
         codes = [int(x) for x in re.findall(r'\d+', out.split('@@SHAPES', 1)[1].split(': list')[0].replace('%nat', ''))]
+        ccodes = [int(x) for x in re.findall(r'\d+', out.split('@@CHAINS', 1)[1].split(': list')[0].replace('%nat', ''))] if '@@CHAINS' in out else [0] * len(codes)
         by_gate = {}
-        for (g, fn, ln, lit), c in zip(smeta, codes):
+        by_gate_chain = {}
+        for (g, fn, ln, lit), c, cc in zip(smeta, codes, ccodes):
             by_gate.setdefault(g, []).append((fn, ln, lit, c))
+            by_gate_chain.setdefault(g, []).append((fn, ln, lit, cc))
         full = sorted(g for g, l in by_gate.items() if all(c != 0 for (_, _, _, c) in l))
-        static_now[y] = set(full)
+        # gates whose readers all hold the gate somewhere in an `or` chain that refuses (the weaker theorem: never a value)
+        full_chain = sorted(g for g, l in by_gate_chain.items() if g not in full and all(c != 0 for (_, _, _, c) in l))
+        static_now[y] = set(full) | set(full_chain)
+        ck.cov.setdefault('gate_classes', {}).setdefault(str(y), {})['every reading line holds the gate in an or-chain that refuses: never a value (theorem C09_every_reader_blocks)'] = full_chain
+        if full_chain:
+            crows = ['(%s, %s, %s)' % (gen_forms.cstr(fn), gen_forms.cstr(ln), gen_forms.cstr(lit)) for g in full_chain for (fn, ln, lit, c) in by_gate_chain[g]]
+            ctxt = [HEAD2 % y, 'Definition rows : list (string * string * string) := %s.' % gen_forms.clist(crows),
+                    'Definition shaped (r:string * string * string) : bool :=\n  match line_of cat (fst (fst r)) (snd (fst r)) with Some ln => negb (gate_shape_chain (snd r) (l_body ln) =? 0)%nat | None => false end.',
+                    'Lemma rows_shaped : forallb shaped rows = true.\nProof. vm_compute. reflexivity. Qed.',
+                    'Theorem C09_every_reader_blocks_%d : forall f l g ln, In (f, l, g) rows -> line_of cat f l = Some ln ->\n'
+                    '  forall (c:ctx) fuel, slookup (qualify c g) (x_inps c) = Some (PBool true) -> forall v, line_value c fuel ln <> RVal v.' % y,
+                    'Proof.\n  intros f l g ln Hin Hl c fuel Hg.\n  pose proof (proj1 (forallb_forall shaped rows) rows_shaped _ Hin) as S. unfold shaped in S. cbn [fst snd] in S. rewrite Hl in S.\n'
+                    '  apply (gate_blocks c ln g fuel); [|exact Hg]. intros E. rewrite E in S. discriminate.\nQed.',
+                    'Goal True. idtac "@@PA C09_every_reader_blocks_%d". Abort.' % y, 'Print Assumptions C09_every_reader_blocks_%d.' % y]
+            cfiles.append((y, len(full_chain), len(crows), ck.write_gen('C09_blocks_%d.v' % y, '\n'.join(ctxt) + '\n')))
         for g in sorted(frozen_static.get(str(y), [])):
-            if g not in full and any(x['input'] == g for x in gates_by_year[y]):
+            if g not in full and g not in static_now.get(y, set()) and any(x['input'] == g for x in gates_by_year[y]):
                 lost_static.append((y, g, [(fn, ln) for (fn, ln, lit, c) in by_gate.get(g, []) if c == 0]))
         ck.cov.setdefault('gate_classes', {}).setdefault(str(y), {})['every reading line refuses on every store (theorem C09_every_reader_refuses)'] = full
         rows = ['(%s, %s, %s)' % (gen_forms.cstr(fn), gen_forms.cstr(ln), gen_forms.cstr(lit)) for g in full for (fn, ln, lit, c) in by_gate[g]]
@@ -158,6 +178,11 @@ def run(tier, seed):
         ok, out = res_t[f]
         ck.harvest_assumptions(out)
         ck.oblige('theorem:C09_every_reader_refuses_%d (%d gates, %d reading lines)' % (y, ng, nr), ok and ng > 0, out[-300:] if not ok else '')
+    res_c = ck.coqc_many([f for _, _, _, f in cfiles], timeout=600)
+    for y, ng, nr, f in cfiles:
+        ok, out = res_c[f]
+        ck.harvest_assumptions(out)
+        ck.oblige('theorem:C09_every_reader_blocks_%d (%d more gates, %d reading lines: never a value while the gate is affirmative)' % (y, ng, nr), ok, out[-300:] if not ok else '')
     if os.environ.get('C09_FREEZE'):
         json.dump({'comment': 'gates all of whose reading lines refuse on every store (theorem C09_every_reader_refuses) on the baseline tree; written by C09_FREEZE=1 ./check C09',
                    'static': {str(y): sorted(v) for y, v in static_now.items()}}, open(fz_path, 'w'), indent=1)
